@@ -54,7 +54,7 @@ ASSUMPTIONS = [
 
 
 def bounds(tier):
-    return {"N": [1, 4 if tier == "quick" else 5], "N_in_memory": [1, 4 if tier == "quick" else 7], "n_linear_samples": [1, 2], "max_posterior_samples": "None or any integer >= 1 (symbolic)",
+    return {"N": [1, 4 if tier == "quick" else 6], "N_in_memory": [1, 4 if tier == "quick" else 10], "n_linear_samples": [1, 2], "max_posterior_samples": "None or any integer >= 1 (symbolic)",
             "n_prior_samples": "None, 1..N, N+1", "n_batches": "None, 1, 2, N+1", "pool.size": [0, 3],
             "entry": ["rejection_sample_inmem", "rejection_sample_helper(file name)", "rejection_sample_helper(JokerSamples via temp file)",
                       "TheJoker.rejection_sample(in_memory True/False)"]}
@@ -63,15 +63,15 @@ def bounds(tier):
 def shapes(tier):
     out = []
     Ns = [1, 2, 3, 4] if tier == "quick" else [1, 2, 3, 4, 5]
-    for N in Ns + ([6, 7] if tier == "thorough" else []):
+    for N in Ns + ([6, 7, 8, 9, 10] if tier == "thorough" else []):
         for nlin in (1, 2):
             for kmax in ("none", "sym"):
                 if N >= 4 and nlin == 2 and kmax == "none":
                     continue
-                if N >= 6 and (nlin == 2 or (N == 7 and kmax == "sym")):
+                if N >= 6 and (nlin == 2 or (N >= 9 and kmax == "sym")):
                     continue
                 out.append({"mode": "inmem", "N": N, "n_lin": nlin, "kmax": kmax})
-    for N in Ns:
+    for N in Ns + ([6] if tier == "thorough" else []):
         combos = []
         nbs = [None, 1, 2, N + 1] if tier == "thorough" or N <= 3 else [None, N + 1]
         for nb in nbs:
